@@ -43,12 +43,14 @@ def bounded(tier, seed):
             return em.ObjectExp(rng.choice(objs))
         return em.Int(rng.randint(0, 2))
 
-    classes = []
-    for lim in (1, 2, 3, 20, None):
-        classes.append(type(f"S{lim}", (UPState,), {"MAX_ANCESTORS": lim}))
+    # make_child builds plain UPState objects, so the ancestor limit is set on the class itself for the
+    # duration of one history (restored afterwards)
+    limits = (1, 2, 3, 20, None)
+    saved_limit = UPState.MAX_ANCESTORS
+    cls = UPState
     for h in range(nhist):
         rng = random.Random(seed * 7919 + h)
-        cls = classes[h % len(classes)]
+        UPState.MAX_ANCESTORS = limits[h % len(limits)]
         init = {k: rnd_val(rng, k) for k in keys if rng.random() < 0.5}
         real = [cls(dict(init), pr)]
         model = [dict(defaults) | init]
@@ -56,9 +58,10 @@ def bounded(tier, seed):
         for step in range(steps):
             i = rng.randrange(len(real))
             upd = {k: rnd_val(rng, k) for k in rng.sample(keys, rng.randint(0, 3))}
-            if rng.random() < 0.25:         # reset something to its default / to the parent's value
-                k = rng.choice(keys)
-                if k in defaults:
+            if rng.random() < 0.5:          # reset to its default a fluent that currently has another value
+                cands = [k for k in keys if k in defaults and model[i].get(k) is not defaults[k]]
+                if cands:
+                    k = rng.choice(cands)
                     upd[k] = defaults[k]
             real.append(real[i].make_child(dict(upd)))
             model.append(model[i] | upd)
@@ -93,6 +96,7 @@ def bounded(tier, seed):
             samples.append({"limit": cls.MAX_ANCESTORS, "history": log[:5]})
         if len(failures) >= 4:
             break
+    UPState.MAX_ANCESTORS = saved_limit
     return {"evaluations": evals, "distinct_nontrivial": len(nontrivial), "failures": failures[:4],
             "rule": f"{nhist} random branching histories of {steps} make_child steps over 8 ground fluents (defaults for 4), ancestor limits "
                     f"1/2/3/20/None, condensation interleaved; non-trivial = distinct pair of different states with equal views",
